@@ -223,32 +223,24 @@ theorem ackState_reported {ds : Bool} {dv0 : List Int} {c : Client} {d : Device}
 /-! ### the two halves of a write run back to back are the `Config` write -/
 
 theorem astep_write {c : Client} {d : Device} (hI : Inv c d) (a b : Outcome) :
-    (arun c d (writeBlock c.divSupported a b)).1 = (step c d (.write a b)).1 ∧
-    (arun c d (writeBlock c.divSupported a b)).2.1 = (step c d (.write a b)).2.1 := by
+    (arun c d (writeBlock c.n c.divSupported a b)).1 = (step c d (.write a b)).1 ∧
+    (arun c d (writeBlock c.n c.divSupported a b)).2.1 = (step c d (.write a b)).2.1 := by
   show _ = (channelsWrite c d a b).1 ∧ _ = (channelsWrite c d a b).2.1
   by_cases hn : c.n = 0
-  · -- no channels: the write does nothing; the blocks fail locally (no request can be built) and
-    -- leave client and device as they are
+  · -- no channels: the write does nothing and takes no lock at all — the block list is empty
     rw [channelsWrite_zero c d a b hn]
-    cases hs : c.divSupported with
-    | false =>
-      show (writeEnable c d b).1 = c ∧ (writeEnable c d b).2.1 = d
-      rw [writeEnable_zero hI hn b]; exact ⟨rfl, rfl⟩
-    | true =>
-      simp only [writeBlock, if_true, arun, astep, hs]
-      rw [writeDiv_zero hI hn a]
-      dsimp only
-      rw [writeEnable_zero hI hn b]
-      exact ⟨rfl, rfl⟩
+    simp only [writeBlock, hn, if_true, arun]
+    exact ⟨trivial, trivial⟩
   cases hs : c.divSupported with
   | false =>
     rw [channelsWrite_nodiv c d a b hn hs]
+    simp only [writeBlock, hn, if_false]
     exact ⟨rfl, rfl⟩
   | true =>
     obtain ⟨f, dv', -, -, -, heq⟩ := writeDiv_char hI hn a
     have hne : (writeDiv c d a).2.2.err = none := by rw [heq]
     rw [channelsWrite_div_ok c d a b hn hs hne]
-    simp only [writeBlock, if_true, arun, astep, hs]
+    simp only [writeBlock, hn, if_false, if_true, arun, astep, hs]
     exact ⟨trivial, trivial⟩
 
 /-! ### final state: every thread ends with a write block -/
@@ -495,6 +487,383 @@ theorem getLast?_append_wEn (init : List AOp) (x : List AOp) (w : AOp) :
     (init ++ (x ++ [w])).getLast? = some w := by
   rw [← List.append_assoc]
   exact List.getLast?_concat ..
+
+/-! ### final state under the weaker condition: in the merge, every setter is followed by a write -/
+
+/-- every enable setter of the list is followed (later in the list) by an enable write — equivalently, the
+    LAST enable setter is -/
+def EnClosed : List AOp → Prop
+  | [] => True
+  | a :: r => (isEnSetter a = true → ∃ x ∈ r, isWEn x = true) ∧ EnClosed r
+
+/-- a list whose last enable setter is followed by an enable write is `EnClosed` -/
+theorem enClosed_intro (pre post : List AOp) (w : AOp) (hw : isWEn w = true)
+    (hpost : ∀ x ∈ post, isEnSetter x = false) : EnClosed (pre ++ w :: post) := by
+  induction pre with
+  | nil =>
+    refine ⟨fun h => ?_, ?_⟩
+    · cases w <;> simp [isWEn, isEnSetter] at hw h
+    · clear hw
+      induction post with
+      | nil => trivial
+      | cons b r ih =>
+        refine ⟨fun h => ?_, ih (fun x hx => hpost x (List.mem_cons_of_mem _ hx))⟩
+        rw [hpost b (List.mem_cons_self ..)] at h
+        exact Bool.noConfusion h
+  | cons a r ih => exact ⟨fun _ => ⟨w, by simp, hw⟩, ih⟩
+
+theorem divClosed_intro (pre post : List AOp) (w : AOp) (hw : isWDiv w = true)
+    (hpost : ∀ x ∈ post, isDivSetter x = false) : DivClosed (pre ++ w :: post) := by
+  induction pre with
+  | nil =>
+    refine ⟨fun h => ?_, ?_⟩
+    · cases w <;> simp [isWDiv, isDivSetter] at hw h
+    · clear hw
+      induction post with
+      | nil => trivial
+      | cons b r ih =>
+        refine ⟨fun h => ?_, ih (fun x hx => hpost x (List.mem_cons_of_mem _ hx))⟩
+        rw [hpost b (List.mem_cons_self ..)] at h
+        exact Bool.noConfusion h
+  | cons a r ih => exact ⟨fun _ => ⟨w, by simp, hw⟩, ih⟩
+
+/-- a list without enable setters is `EnClosed` -/
+theorem enClosed_of_no_setter (l : List AOp) (h : ∀ x ∈ l, isEnSetter x = false) : EnClosed l := by
+  induction l with
+  | nil => trivial
+  | cons a r ih =>
+    refine ⟨fun hs => ?_, ih (fun x hx => h x (List.mem_cons_of_mem _ hx))⟩
+    rw [h a (List.mem_cons_self ..)] at hs
+    exact Bool.noConfusion hs
+
+theorem divClosed_of_no_setter (l : List AOp) (h : ∀ x ∈ l, isDivSetter x = false) : DivClosed l := by
+  induction l with
+  | nil => trivial
+  | cons a r ih =>
+    refine ⟨fun hs => ?_, ih (fun x hx => h x (List.mem_cons_of_mem _ hx))⟩
+    rw [h a (List.mem_cons_self ..)] at hs
+    exact Bool.noConfusion hs
+
+/-- an acknowledged enable half synchronises the enable part (any `Acked` step that is an enable write) -/
+theorem isWEn_synced {ds : Bool} {dv0 : List Int} {c : Client} {d : Device} (hS : AckState ds dv0 c d)
+    (a : AOp) (ha : Acked a) (hw : isWEn a = true) : EnSynced (astep c d a).1 (astep c d a).2.1 := by
+  cases a with
+  | wEn o =>
+    have ho : o = .ack := ha
+    subst ho
+    exact wEn_synced hS
+  | _ => simp [isWEn] at hw
+
+/-- enable part, one list: if every enable setter is followed by an (acknowledged) enable write, and either
+    an enable write is still ahead or the state is synchronised already, the run ends synchronised -/
+theorem final_en_closed {ds : Bool} {dv0 : List Int} (m : List AOp) :
+    ∀ {c : Client} {d : Device}, AckState ds dv0 c d → (∀ x ∈ m, Acked x) → EnClosed m →
+    ((∃ x ∈ m, isWEn x = true) ∨ EnSynced c d) →
+    EnSynced (arun c d m).1 (arun c d m).2.1 := by
+  induction m with
+  | nil =>
+    intro c d _ _ _ hor
+    rcases hor with ⟨x, hx, -⟩ | h
+    · nomatch hx
+    · exact h
+  | cons a r ih =>
+    intro c d hS hack hcl hor
+    have ha : Acked a := hack a (List.mem_cons_self ..)
+    rw [arun_cons]
+    refine ih (ackState_astep hS a ha) (fun x hx => hack x (List.mem_cons_of_mem _ hx)) hcl.2 ?_
+    by_cases hse : isEnSetter a = true
+    · exact Or.inl (hcl.1 hse)
+    · have hse' : isEnSetter a = false := by cases h : isEnSetter a <;> simp_all
+      by_cases hw : isWEn a = true
+      · exact Or.inr (isWEn_synced hS a ha hw)
+      · rcases hor with ⟨x, hx, hxw⟩ | h
+        · rcases List.mem_cons.mp hx with rfl | hx'
+          · exact absurd hxw hw
+          · exact Or.inl ⟨x, hx', hxw⟩
+        · exact Or.inr (enSynced_astep hS h a ha hse')
+
+/-- divider part, one list (device with divider support) -/
+theorem final_div_closed {dv0 : List Int} (m : List AOp) :
+    ∀ {c : Client} {d : Device}, AckState true dv0 c d → (∀ x ∈ m, Acked x) → DivClosed m →
+    ((∃ x ∈ m, isWDiv x = true) ∨ DivSynced c d) →
+    DivSynced (arun c d m).1 (arun c d m).2.1 := by
+  induction m with
+  | nil =>
+    intro c d _ _ _ hor
+    rcases hor with ⟨x, hx, -⟩ | h
+    · nomatch hx
+    · exact h
+  | cons a r ih =>
+    intro c d hS hack hcl hor
+    have ha : Acked a := hack a (List.mem_cons_self ..)
+    have hds : c.divSupported = true := hS.divS
+    rw [arun_cons]
+    refine ih (ackState_astep hS a ha) (fun x hx => hack x (List.mem_cons_of_mem _ hx)) hcl.2 ?_
+    by_cases hsd : isDivSetter a = true
+    · exact Or.inl (hcl.1 hsd)
+    · have hsd' : isDivSetter a = false := by cases h : isDivSetter a <;> simp_all
+      by_cases hwd : isWDiv a = true
+      · have : ∃ o, a = .wDiv o := by
+          cases a with
+          | wDiv o => exact ⟨o, rfl⟩
+          | _ => simp [isWDiv] at hwd
+        obtain ⟨o, rfl⟩ := this
+        have ho : o = .ack := ha
+        subst ho
+        exact Or.inr (wDiv_synced hS hds)
+      · rcases hor with ⟨x, hx, hxw⟩ | h
+        · rcases List.mem_cons.mp hx with rfl | hx'
+          · exact absurd hxw hwd
+          · exact Or.inl ⟨x, hx', hxw⟩
+        · exact Or.inr (divSynced_astep hS h a ha hsd' hds)
+
+/-- the state right after connect is synchronised -/
+theorem init_enSynced (d0 : Device) (flags : Nat) : EnSynced (Client.init d0 flags) d0 := ⟨rfl, rfl, rfl⟩
+theorem init_divSynced (d0 : Device) (flags : Nat) : DivSynced (Client.init d0 flags) d0 := ⟨rfl, rfl, rfl⟩
+
+/-! ### the number of channels never changes -/
+
+theorem astep_n (c : Client) (d : Device) (op : AOp) : (astep c d op).1.n = c.n := by
+  cases op with
+  | enable cs => rfl
+  | disable cs => rfl
+  | divider cs v =>
+    show (step c d (.divider cs v)).1.n = c.n
+    rw [step_divider]; split <;> rfl
+  | wDiv o =>
+    show (if c.divSupported then writeDiv c d o else (c, d, {})).1.n = c.n
+    split
+    · exact (writeDiv_frame c d o).n
+    · rfl
+  | wEn o => exact (writeEnable_frame c d o).n
+  | query => rfl
+
+theorem arun_n (c : Client) (d : Device) (ops : List AOp) : (arun c d ops).1.n = c.n := by
+  induction ops generalizing c d with
+  | nil => rfl
+  | cons op r ih => rw [arun_cons]; exact (ih _ _).trans (astep_n c d op)
+
+/-! ### any outcome (NACK, lost request, lost ACK; devices without ACK support): nothing raises, every
+    critical section is bounded, and on a device with ACK support the view is right unless in doubt -/
+
+theorem astep_inv {c : Client} {d : Device} (hI : Inv c d) (op : AOp) : Inv (astep c d op).1 (astep c d op).2.1 := by
+  cases op with
+  | enable cs => exact step_inv hI (.enable cs)
+  | disable cs => exact step_inv hI (.disable cs)
+  | divider cs v => exact step_inv hI (.divider cs v)
+  | wDiv o =>
+    show Inv (if c.divSupported then writeDiv c d o else (c, d, {})).1 (if c.divSupported then writeDiv c d o else (c, d, {})).2.1
+    split
+    · exact writeDiv_inv hI o
+    · exact hI
+  | wEn o => exact writeEnable_inv hI o
+  | query => exact hI
+
+theorem arun_inv {c : Client} {d : Device} (hI : Inv c d) (ops : List AOp) : Inv (arun c d ops).1 (arun c d ops).2.1 := by
+  induction ops generalizing c d with
+  | nil => exact hI
+  | cons op r ih => rw [arun_cons]; exact ih (astep_inv hI op)
+
+/-- a critical section of the channels lock lasts at most one ACK timeout (virtual time, tenths of a second),
+    whatever the device does -/
+theorem astep_time (c : Client) (d : Device) (op : AOp) : (astep c d op).2.2.time ≤ 10 := by
+  cases op with
+  | enable cs => exact Nat.zero_le _
+  | disable cs => exact Nat.zero_le _
+  | divider cs v =>
+    show (step c d (.divider cs v)).2.2.time ≤ 10
+    rw [step_divider]; split <;> exact Nat.zero_le _
+  | wDiv o =>
+    show (if c.divSupported then writeDiv c d o else (c, d, {})).2.2.time ≤ 10
+    split
+    · exact writeDiv_time c d o
+    · exact Nat.zero_le _
+  | wEn o => exact writeEnable_time c d o
+  | query => exact Nat.zero_le _
+
+theorem setMany_noerr {α : Type} (vec : List α) (cs : List Nat) (v : α) (h : ∀ c ∈ cs, c < vec.length) :
+    (setMany vec cs v).2 = none := by
+  induction cs generalizing vec with
+  | nil => rfl
+  | cons c r ih =>
+    have hc : c < vec.length := h c (List.mem_cons_self ..)
+    unfold setMany
+    rw [if_pos hc]
+    exact ih _ (fun x hx => by rw [List.length_set]; exact h x (List.mem_cons_of_mem _ hx))
+
+/-- a call the application is allowed to make on a device with `n` channels: channel numbers in range,
+    divider values 8-bit; a write half only occurs on a device with channels (`writeBlock`) -/
+def WellOp (n : Nat) : AOp → Prop
+  | .enable cs => ∀ c ∈ cs, c < n
+  | .disable cs => ∀ c ∈ cs, c < n
+  | .divider cs v => (∀ c ∈ cs, c < n) ∧ 0 ≤ v ∧ v ≤ 255
+  | .wDiv _ => n ≠ 0
+  | .wEn _ => n ≠ 0
+  | .query => True
+
+/-- no exception, whatever the device answers -/
+theorem astep_noerr {c : Client} {d : Device} (hI : Inv c d) (op : AOp) (hw : WellOp c.n op) :
+    (astep c d op).2.2.err = none := by
+  cases op with
+  | enable cs =>
+    show (setMany c.enNew cs true).2 = none
+    exact setMany_noerr _ _ _ (fun x hx => by rw [hI.lEnNew]; exact hw x hx)
+  | disable cs =>
+    show (setMany c.enNew cs false).2 = none
+    exact setMany_noerr _ _ _ (fun x hx => by rw [hI.lEnNew]; exact hw x hx)
+  | divider cs v =>
+    show (step c d (.divider cs v)).2.2.err = none
+    have hv : ¬ (v < 0 ∨ v > 255) := by have := hw.2; omega
+    rw [step_divider, if_neg hv]
+    exact setMany_noerr _ _ _ (fun x hx => by rw [hI.lDivNew]; exact hw.1 x hx)
+  | wDiv o =>
+    show (if c.divSupported then writeDiv c d o else (c, d, {})).2.2.err = none
+    split
+    · exact (writeDiv_out hI hw o).1
+    · rfl
+  | wEn o => exact (writeEnable_out hI hw o).1
+  | query => rfl
+
+theorem arun_safe {c : Client} {d : Device} (hI : Inv c d) (ops : List AOp) (hw : ∀ op ∈ ops, WellOp c.n op) :
+    ∀ o ∈ (arun c d ops).2.2, o.err = none ∧ o.time ≤ 10 := by
+  induction ops generalizing c d with
+  | nil => intro o ho; nomatch ho
+  | cons op r ih =>
+    rw [arun_cons]
+    intro o ho
+    rcases List.mem_cons.mp ho with rfl | ho
+    · exact ⟨astep_noerr hI op (hw op (List.mem_cons_self ..)), astep_time c d op⟩
+    · refine ih (astep_inv hI op) (fun op' hm => ?_) o ho
+      rw [astep_n]
+      exact hw op' (List.mem_cons_of_mem _ hm)
+
+/-- the invariants of any history against a device with ACK support survive every lock-level step,
+    whatever its outcome -/
+theorem doubtState_astep {ds : Bool} {c : Client} {d : Device} (h : DoubtState ds c d) (op : AOp) :
+    DoubtState ds (astep c d op).1 (astep c d op).2.1 := by
+  cases op with
+  | enable cs => exact h.step (.enable cs)
+  | disable cs => exact h.step (.disable cs)
+  | divider cs v => exact h.step (.divider cs v)
+  | wDiv o =>
+    show DoubtState ds (if c.divSupported then writeDiv c d o else (c, d, {})).1
+      (if c.divSupported then writeDiv c d o else (c, d, {})).2.1
+    split
+    · have hF := writeDiv_frame c d o
+      exact ⟨writeDiv_inv h.inv o, h.dEn.of_divFrame hF, writeDiv_doubt h.inv h.dDiv o (Or.inl h.ackS),
+        hF.ackS.trans h.ackS, hF.divS.trans h.divS⟩
+    · exact h
+  | wEn o =>
+    have hF := writeEnable_frame c d o
+    exact ⟨writeEnable_inv h.inv o, writeEnable_doubt h.inv h.dEn o (Or.inl h.ackS), h.dDiv.of_enFrame hF,
+      hF.ackS.trans h.ackS, hF.divS.trans h.divS⟩
+  | query => exact h
+
+theorem arun_doubtState {ds : Bool} {c : Client} {d : Device} (h : DoubtState ds c d) (ops : List AOp) :
+    DoubtState ds (arun c d ops).1 (arun c d ops).2.1 := by
+  induction ops generalizing c d with
+  | nil => exact h
+  | cons op r ih => rw [arun_cons]; exact ih (doubtState_astep h op)
+
+/-! ### the set-all calls, run back to back, are the atomic ops of the configuration machine -/
+
+theorem set_prefix {α : Type} (l : List α) (k : Nat) (v : α) (hk : k < l.length) :
+    (List.replicate k v ++ l.drop k).set k v = List.replicate (k + 1) v ++ l.drop (k + 1) := by
+  rw [List.set_append_right _ _ (by simp)]
+  simp only [List.length_replicate, Nat.sub_self]
+  rw [List.drop_eq_getElem_cons hk, List.set_cons_zero, List.replicate_succ', List.append_assoc]
+  rfl
+
+/-- the first `k` one-channel blocks of a set-all call (`mk i` sets channel `i` of the requested enable vector to `v`) -/
+theorem arun_setall_prefix (mk : Nat → AOp) (v : Bool)
+    (hmk : ∀ (c : Client) (d : Device) (i : Nat),
+      (astep c d (mk i)).1 = { c with enNew := (setMany c.enNew [i] v).1 } ∧ (astep c d (mk i)).2.1 = d)
+    (c : Client) (d : Device) (k : Nat) (hk : k ≤ c.enNew.length) :
+    (arun c d ((List.range k).map mk)).1 = { c with enNew := List.replicate k v ++ c.enNew.drop k } ∧
+    (arun c d ((List.range k).map mk)).2.1 = d := by
+  induction k with
+  | zero => exact ⟨by simp [arun], rfl⟩
+  | succ k ih =>
+    obtain ⟨h1, h2⟩ := ih (Nat.le_of_succ_le hk)
+    rw [List.range_succ, List.map_append, arun_append]
+    dsimp only
+    rw [h1, h2]
+    have hlt : k < (List.replicate k v ++ c.enNew.drop k).length := by
+      simp only [List.length_append, List.length_replicate, List.length_drop]; omega
+    show (arun _ d [mk k]).1 = _ ∧ (arun _ d [mk k]).2.1 = d
+    rw [arun_cons]
+    obtain ⟨e1, e2⟩ := hmk { c with enNew := List.replicate k v ++ c.enNew.drop k } d k
+    refine ⟨?_, by rw [e2]; rfl⟩
+    rw [e1, e2]
+    show ({ c with enNew := (setMany (List.replicate k v ++ c.enNew.drop k) [k] v).1 } : Client) = _
+    simp only [setMany, hlt, if_true]
+    congr 1
+    exact set_prefix c.enNew k v (by omega)
+
+/-- run back to back, the blocks of `ch_enable_all` / `ch_disable_all` / `channels_default_cfg` are the atomic
+    `enableAll` / `disableAll` / `defaultCfg` of the configuration machine of C07 -/
+theorem setall_blocks_refine {c : Client} {d : Device} (hI : Inv c d) :
+    ((arun c d (enableAllBlock c.n)).1 = (step c d .enableAll).1 ∧ (arun c d (enableAllBlock c.n)).2.1 = d) ∧
+    ((arun c d (disableAllBlock c.n)).1 = (step c d .disableAll).1 ∧ (arun c d (disableAllBlock c.n)).2.1 = d) := by
+  have hn : c.n ≤ c.enNew.length := by rw [hI.lEnNew]; exact Nat.le_refl _
+  have hd : c.enNew.drop c.n = [] := by rw [← hI.lEnNew]; exact List.drop_length
+  obtain ⟨a1, a2⟩ := arun_setall_prefix (fun i => .enable [i]) true (fun _ _ _ => ⟨rfl, rfl⟩) c d c.n hn
+  obtain ⟨b1, b2⟩ := arun_setall_prefix (fun i => .disable [i]) false (fun _ _ _ => ⟨rfl, rfl⟩) c d c.n hn
+  refine ⟨⟨?_, a2⟩, ⟨?_, b2⟩⟩
+  · show (arun c d ((List.range c.n).map fun i => AOp.enable [i])).1 = _
+    have hl : List.replicate c.n true = List.replicate c.enNew.length true := by rw [hI.lEnNew]
+    rw [a1, hd, List.append_nil, hl]; rfl
+  · show (arun c d ((List.range c.n).map fun i => AOp.disable [i])).1 = _
+    have hl : List.replicate c.n false = List.replicate c.enNew.length false := by rw [hI.lEnNew]
+    rw [b1, hd, List.append_nil, hl]; rfl
+
+theorem setMany_append_ok {α : Type} (vec w : List α) (a b : List Nat) (v : α) (h : setMany vec a v = (w, none)) :
+    setMany vec (a ++ b) v = setMany w b v := by
+  induction a generalizing vec with
+  | nil =>
+    have : vec = w := congrArg Prod.fst h
+    rw [List.nil_append, this]
+  | cons x r ih =>
+    unfold setMany at h
+    rw [List.cons_append]
+    have e : setMany vec (x :: (r ++ b)) v =
+        if x < vec.length then setMany (vec.set x v) (r ++ b) v else (vec, some .indexError) := rfl
+    rw [e]
+    by_cases hx : x < vec.length
+    · rw [if_pos hx] at h ⊢
+      exact ih _ h
+    · rw [if_neg hx] at h
+      exact absurd (congrArg Prod.snd h) (by simp)
+
+theorem setMany_range {α : Type} (vec : List α) (v : α) (k : Nat) (hk : k ≤ vec.length) :
+    setMany vec (List.range k) v = (List.replicate k v ++ vec.drop k, none) := by
+  induction k with
+  | zero => simp [setMany]
+  | succ k ih =>
+    rw [List.range_succ, setMany_append_ok vec _ _ _ v (ih (Nat.le_of_succ_le hk))]
+    have hlt : k < (List.replicate k v ++ vec.drop k).length := by
+      simp only [List.length_append, List.length_replicate, List.length_drop]; omega
+    simp only [setMany, hlt, if_true]
+    rw [set_prefix vec k v (by omega)]
+
+theorem defaultCfg_blocks_refine {c : Client} {d : Device} (hI : Inv c d) :
+    (arun c d (defaultCfgBlock c.n)).1 = (step c d .defaultCfg).1 ∧ (arun c d (defaultCfgBlock c.n)).2.1 = d := by
+  obtain ⟨-, ⟨b1, b2⟩⟩ := setall_blocks_refine hI
+  unfold defaultCfgBlock
+  rw [arun_append]
+  dsimp only
+  rw [b1, b2]
+  have hr : setMany c.divNew (List.range c.n) 0 = (List.replicate c.divNew.length 0, none) := by
+    have := setMany_range c.divNew (0 : Int) c.n (by rw [hI.lDivNew]; exact Nat.le_refl _)
+    rw [this, ← hI.lDivNew, List.drop_length, List.append_nil]
+  refine ⟨?_, ?_⟩
+  · show (step (step c d .disableAll).1 d (.divider (List.range c.n) 0)).1 = _
+    rw [step_divider, if_neg (by omega)]
+    show ({ (step c d .disableAll).1 with divNew := (setMany c.divNew (List.range c.n) 0).1 } : Client) = _
+    rw [hr]; rfl
+  · show (step (step c d .disableAll).1 d (.divider (List.range c.n) 0)).2.1 = d
+    rw [step_divider, if_neg (by omega)]
+
 
 end LocksLemmas
 end Nxs
